@@ -26,6 +26,7 @@ import LekkerVerif.Properties.C16Put
 import LekkerVerif.Properties.C17
 import LekkerVerif.Properties.C18
 import LekkerVerif.Properties.C19
+import LekkerVerif.Properties.C19Hier
 import LekkerVerif.Properties.C20
 
 /-! Every property file (and through them every proof and model file).  `./check --setup` regenerates
